@@ -9,6 +9,8 @@ import GoImap.Lemmas.NumSetCanon
 import GoImap.Lemmas.NumSetSearch
 import GoImap.Lemmas.NumSetContains
 import GoImap.Lemmas.NumSetNums
+import GoImap.Lemmas.NumSetInsert
+import GoImap.Lemmas.NumSetOps
 namespace GoImap.C15
 open GoImap.NumSet GoImap.NumSetSpec
 
@@ -93,5 +95,79 @@ example : canonical [⟨1, 3⟩, ⟨5, 5⟩] = true ∧ dynamic [⟨1, 3⟩, ⟨
     nums [⟨1, 3⟩, ⟨5, 5⟩] = some [1, 2, 3, 5] := by decide
 
 example : canonical [⟨1, 3⟩, ⟨5, 0⟩] = true ∧ dynamic [⟨1, 3⟩, ⟨5, 0⟩] = true := by decide
+
+/-! ### 3. `insert` and the public operations preserve canonical form
+
+`applyOp`, `run` (fold of the operations from the empty set, identical to
+`GoImap.DriveC15.applyOp`) and `OpOk` (numbers below 2^32, set arguments canonical) are defined in
+`GoImap/Lemmas/NumSetOps.lean`. -/
+
+theorem insert_canonical (s : NumSet.Set) (v : Range) (hc : canonical s = true)
+    (hv : Range.Valid v) : canonical (NumSet.insert s v) = true :=
+  (canonical_iff _).2 (insert_canon s v ((canonical_iff s).1 hc) hv)
+
+example : canonical [⟨1, 3⟩, ⟨7, 9⟩, ⟨12, 0⟩] = true ∧ Range.Valid ⟨4, 6⟩ ∧
+    NumSet.insert [⟨1, 3⟩, ⟨7, 9⟩, ⟨12, 0⟩] ⟨4, 6⟩ = [⟨1, 9⟩, ⟨12, 0⟩] := by
+  refine ⟨by decide, by simp [Range.Valid, W], by decide⟩
+
+theorem addNum_canonical (s : NumSet.Set) (n : Nat) (hc : canonical s = true) (hn : n < W) :
+    canonical (addNum s n) = true :=
+  (canonical_iff _).2 (applyOp_canon s (.num n) ((canonical_iff s).1 hc) hn)
+
+/-- any two numbers below 2^32, in either order, `0` for "*" -/
+theorem addRange_canonical (s : NumSet.Set) (a b : Nat) (hc : canonical s = true)
+    (ha : a < W) (hb : b < W) : canonical (addRange s a b) = true :=
+  (canonical_iff _).2 (applyOp_canon s (.range a b) ((canonical_iff s).1 hc) ⟨ha, hb⟩)
+
+theorem addSet_canonical (s t : NumSet.Set) (hc : canonical s = true) (ht : canonical t = true) :
+    canonical (addSet s t) = true :=
+  (canonical_iff _).2 (applyOp_canon s (.set t) ((canonical_iff s).1 hc) ht)
+
+example : canonical (addRange [⟨1, 3⟩] 0 2) = true ∧ addRange [⟨1, 3⟩] 9 5 = [⟨1, 3⟩, ⟨5, 9⟩] ∧
+    addSet [⟨1, 3⟩] [⟨4, 4⟩, ⟨8, 0⟩] = [⟨1, 4⟩, ⟨8, 0⟩] := by decide
+
+/-- every sequence of operations from the empty set ends in canonical form -/
+theorem canonical_run (ops : List Op) (hok : ∀ o ∈ ops, OpOk o) : canonical (run ops) = true :=
+  (canonical_iff _).2 (foldl_applyOp ops [] trivial hok).1
+
+example : (∀ o ∈ [Op.num 5, Op.range 0 9, Op.set [⟨1, 2⟩], Op.num 4294967295], OpOk o) ∧
+    run [Op.num 5, Op.range 0 9, Op.set [⟨1, 2⟩], Op.num 4294967295] = [⟨1, 2⟩, ⟨5, 5⟩, ⟨9, 0⟩] := by
+  refine ⟨?_, by decide⟩
+  intro o ho
+  simp only [List.mem_cons, List.not_mem_nil, or_false] at ho
+  rcases ho with rfl | rfl | rfl | rfl
+  · show 5 < W; decide
+  · exact ⟨by decide, by decide⟩
+  · show canonical _ = true; decide
+  · show 4294967295 < W; decide
+
+/-! ### 4. `insert` is set union; a run of operations denotes the union of its operations -/
+
+theorem insert_mem (s : NumSet.Set) (v : Range) (hc : canonical s = true) (hv : Range.Valid v)
+    (q : Nat) (hq : 0 < q) (hqW : q < W) :
+    contains (NumSet.insert s v) q = (contains s q || v.contains q) := by
+  have h := (canonical_iff s).1 hc
+  rw [contains_eq_any _ 0 (insert_canon s v h hv) q (by omega),
+    contains_eq_any s 0 h q (by omega)]
+  exact insert_any s v h hv q hqW
+
+theorem mem_union (ops : List Op) (hok : ∀ o ∈ ops, OpOk o) (q : Nat) (hq : 0 < q)
+    (hqW : q < W) : contains (run ops) q = memOps ops q := by
+  obtain ⟨h1, h2⟩ := foldl_applyOp ops [] trivial hok
+  have := h2 q hqW
+  rw [List.any_nil, Bool.false_or, any_opDen_pos ops q (by omega)] at this
+  rw [← this]
+  exact contains_eq_any _ 0 h1 q (by omega)
+
+theorem dynamic_iff (ops : List Op) (hok : ∀ o ∈ ops, OpOk o) :
+    dynamic (run ops) = starOps ops := by
+  obtain ⟨h1, h2⟩ := foldl_applyOp ops [] trivial hok
+  have := h2 0 (by decide)
+  rw [List.any_nil, Bool.false_or, any_opDen_zero ops] at this
+  rw [← this]
+  exact dynamic_eq_any _ 0 h1
+
+example : contains (NumSet.insert [⟨1, 3⟩, ⟨7, 9⟩] ⟨4, 5⟩) 5 = true ∧
+    contains [⟨1, 3⟩, ⟨7, 9⟩] 5 = false ∧ (⟨4, 5⟩ : Range).contains 5 = true := by decide
 
 end GoImap.C15
